@@ -173,6 +173,40 @@ pub fn contract_write_chunk_roundtrip(data: [u8; 2], len: usize, vital: bool, se
     assert!((h.flags & CHUNKFLAG_RESEND != 0) == (vital && resend));
 }
 
+/// SAMPLED contract (C05): a chunk packet of any expressible shape -- incl. the largest payloads and compressible content, so
+/// that both output forms of the writer are exercised -- is read back as the same value without a warning
+#[cfg(not(kani))]
+pub fn contract_packet_roundtrip(len: usize, fill: u8, seed: u32, rr: bool, num: u8, ack: u16, token: Option<[u8; 4]>) {
+    let mut payload = Vec::with_capacity(len);
+    let mut x = seed;
+    for _ in 0..len {
+        x = x.wrapping_mul(1664525).wrapping_add(1013904223);
+        payload.push(match fill { 0 => 0u8, 1 => b'w', 2 => b'e', _ => (x >> 24) as u8 });
+    }
+    let p = Packet::Connected(ConnectedPacket {
+        token: token.map(Token),
+        ack,
+        type_: ConnectedPacketType::Chunks(rr, num, &payload),
+    });
+    let mut out = [0u8; 2048];
+    let written = match p.write(&mut out[..]) {
+        Ok(w) => w,
+        Err(_) => panic!("writer refused a packet that fits"),
+    };
+    assert!(written.len() <= 1400);
+    let mut scratch = [0u8; 2048];
+    let mut log = Log::new();
+    let back = Packet::read(&mut log, written, Some(token.is_some()), &mut scratch[..]);
+    match back {
+        Ok(Packet::Connected(ConnectedPacket { token: t2, ack: a2, type_: ConnectedPacketType::Chunks(rr2, num2, pl2) })) => {
+            assert!(t2.map(|t| t.0) == token && a2 == ack && rr2 == rr && num2 == num);
+            assert!(pl2 == &payload[..], "payload differs after write -> read");
+        }
+        _ => panic!("written chunk packet not read back"),
+    }
+    assert!(log.n == 0 || (num == 0 && !rr), "warning on reading back a written packet");
+}
+
 pub mod proofs {
     use super::draw;
     use super::draw::harness;
@@ -232,5 +266,21 @@ pub mod proofs {
         draw::assume(len <= 2 && seq < SEQUENCE_MODULUS);
         draw::reached();
         contract_write_chunk_roundtrip(d, len, vital, seq, resend);
+    });
+
+    #[cfg(not(kani))]
+    harness!(sampled_packet_roundtrip_v6, unwind = 1, {
+        let has_token = draw::bool();
+        let max = if has_token { 1393 } else { 1397 };
+        // mostly near the size limit, where the size checks of writer, decompressor and reader meet
+        let len = if draw::usize_le(2) == 0 { draw::usize_le(max) } else { max - draw::usize_le(8) };
+        let fill = draw::usize_le(3) as u8;
+        let seed = draw::u16() as u32;
+        let rr = draw::bool();
+        let num = draw::u8();
+        let ack = draw::u16() & 0x3ff;
+        let t = draw::bytes::<4>();
+        draw::reached();
+        contract_packet_roundtrip(len, fill, seed, rr, num, ack, if has_token { Some(t) } else { None });
     });
 }
